@@ -1,5 +1,8 @@
 import GeosModel.Proofs.Tri.InCircle
 import GeosModel.Proofs.Tri.Sound
+import GeosModel.Proofs.Tri.Winding
+import GeosModel.Proofs.Tri.Separated
+import GeosModel.Proofs.Tri.HullWinding
 /-!
 # C16 — triangulations tile exactly the right region and are Delaunay
 
@@ -15,13 +18,24 @@ algorithms of GEOS are *not* modelled.  What is proved here is about the certifi
   circumcircle.  `cdt_checker_sound`, `voronoi_checker_sound` likewise.
 * `edge_pairing_area` — the edge-pairing clause (equality of the elementary boundary 1-chains) *implies* the
   area clause: the doubled triangle areas add up to the doubled area of the region (hull / polygon).
-* `edge_pairing_area_cover_partial` (PARTIAL) — pairing + positive orientation + pairwise separation give:
-  areas add up and triangles are pairwise interior-disjoint.  The full statement `C16_cover_full`
-  (every point of the region lies in some triangle, no point outside does) needs one geometric step that is
-  NOT proved here: the additivity of the winding number over the cancelling 1-chain (each positively
-  oriented triangle contributes winding number 1 to its interior points and 0 elsewhere, and the winding
-  number of the hull / polygon boundary is the indicator of the region).  The checker does not rely on the
-  unproved half for disjointness — it tests every pair exactly (`Separated`).
+* `edge_pairing_cover_count` / `cdt_cover_count` — for every point `p` in general position (on none of the edge
+  lines) the number of (positively oriented) triangles that contain `p` strictly equals the winding number
+  (signed ray-crossing number `wind`) of the region's boundary chain about `p`; with `count_le_one` (pairwise
+  separation) that number is 0 or 1.  Proof: `wind` is antisymmetric and additive under splitting at collinear
+  points, so it has equal sums over equal chains (`chainEq_sum`), and a positively oriented triangle has winding
+  number 1 inside / 0 outside (`wind_tri`).
+* `hull_boundary_winding` — the self-certified hull boundary has winding number 1 about strictly interior points
+  and 0 about strictly exterior ones (via the fan triangulation whose separation the checker tests).
+* `triangles_inside_hull` — no triangle sticks out of the hull (second half of `C16_cover_full`), unconditionally.
+* `edge_pairing_area_cover` — **the Delaunay tiling theorem for points in general position**: accepted certificate
+  ⇒ areas add up, every point strictly inside the hull and on none of finitely many lines is strictly inside
+  exactly one triangle, every such point outside is in none.  NOT proved: the passage to points on those lines
+  (a closure argument; `C16_cover_full` is the closed-set statement).
+* `cdt_cover_partial` (PARTIAL) — the same for the constrained triangulation under the explicit hypothesis
+  `PolygonWindingIsIndicator` (the winding number of a valid polygon's oriented boundary is the indicator of its
+  interior — a Jordan-curve type fact that is NOT proved here).  The checker does not rely on it for
+  disjointness (all pairs are tested exactly: `Separated`, `separated_no_common_interior`), and adds the exact
+  centroid-inside test for every triangle.
 -/
 namespace GeosModel.Tri
 open GeosModel.Kernel
@@ -108,13 +122,6 @@ theorem edge_pairing_area (V : List Pt) (ts : List Tri) (B : List Edge)
 theorem ring_area_as_chain (ring : List Pt) : area2 ring = sumInt ((Kernel.edges ring).map cross) :=
   area2_eq_sum ring
 
-/-- a point strictly inside a counter-clockwise triangle -/
-def StrictlyIn (t : Tri) (p : Pt) : Prop :=
-  0 < Kernel.det t.a t.b p ∧ 0 < Kernel.det t.b t.c p ∧ 0 < Kernel.det t.c t.a p
-/-- a point in the closed counter-clockwise triangle -/
-def InClosed (t : Tri) (p : Pt) : Prop :=
-  0 ≤ Kernel.det t.a t.b p ∧ 0 ≤ Kernel.det t.b t.c p ∧ 0 ≤ Kernel.det t.c t.a p
-
 /-- the full covering statement (NOT proved): under the tiling certificate against the hull boundary, a site-
 free formulation — every point of the closed hull is in some closed triangle, and every point strictly inside
 a triangle is in the closed hull -/
@@ -125,57 +132,116 @@ def C16_cover_full : Prop :=
 
 /-- separated counter-clockwise triangles have no common strictly interior point -/
 theorem separated_no_common_interior (t u : Tri) (ht : 0 < t.det) (hu : 0 < u.det) (h : Separated t u) (p : Pt) :
-    ¬ (StrictlyIn t p ∧ StrictlyIn u p) := by
-  -- p strictly inside u is a strict convex combination of u's corners: det(e, p)·det u = Σ λ_i det(e, corner_i)
-  have comb : ∀ (a b : Pt) (w : Tri), Kernel.det a b p * w.det =
-      Kernel.det w.b w.c p * Kernel.det a b w.a + Kernel.det w.c w.a p * Kernel.det a b w.b +
-      Kernel.det w.a w.b p * Kernel.det a b w.c := by
-    intro a b w; simp only [Kernel.det, Tri.det]; ring
-  have main : ∀ (v w : Tri), 0 < w.det → SepBy v w → StrictlyIn v p → StrictlyIn w p → False := by
-    intro v w hw ⟨e, he, hall⟩ hv hwp
-    have h1 := hall w.a (by simp [Tri.corners])
-    have h2 := hall w.b (by simp [Tri.corners])
-    have h3 := hall w.c (by simp [Tri.corners])
-    have hc := comb e.1 e.2 w
-    obtain ⟨w1, w2, w3⟩ := hwp
-    have hpos : 0 < Kernel.det e.1 e.2 p := by
-      simp only [Tri.edges, List.mem_cons, List.mem_nil_iff, or_false] at he
-      rcases he with rfl | rfl | rfl
-      · exact hv.1
-      · exact hv.2.1
-      · exact hv.2.2
-    have hl : 0 < Kernel.det e.1 e.2 p * w.det := Int.mul_pos hpos hw
-    have r1 : Kernel.det w.b w.c p * Kernel.det e.1 e.2 w.a ≤ 0 := Int.mul_nonpos_of_nonneg_of_nonpos (by omega) h1
-    have r2 : Kernel.det w.c w.a p * Kernel.det e.1 e.2 w.b ≤ 0 := Int.mul_nonpos_of_nonneg_of_nonpos (by omega) h2
-    have r3 : Kernel.det w.a w.b p * Kernel.det e.1 e.2 w.c ≤ 0 := Int.mul_nonpos_of_nonneg_of_nonpos (by omega) h3
-    omega
-  rintro ⟨hpt, hpu⟩
-  rcases h with h | h
-  · exact main t u hu h hpt hpu
-  · exact main u t ht h hpu hpt
+    ¬ (StrictlyIn t p ∧ StrictlyIn u p) := separated_no_common_interior' t u ht hu h p
 
-/-- **PARTIAL** (`C16_cover_full` is the full statement).  From an accepted certificate: the doubled areas add
-up to the doubled hull area (by edge pairing alone, `edge_pairing_area`), all triangles are positively
-oriented, and no point is strictly inside two different triangles of the list.  Missing for the full cover:
-winding-number additivity over the cancelling chain (see the module comment). -/
-theorem edge_pairing_area_cover_partial (sites : List Pt) (tris : List Tri)
-    (h : isTriangulationOf sites tris = true) :
-    sumInt ((tris.map Tri.ccw).map Tri.det) = sumInt ((loopEdges (hull sites)).map cross) ∧
-    (∀ t ∈ tris.map Tri.ccw, 0 < t.det) ∧
-    (tris.map Tri.ccw).Pairwise (fun t u => ∀ p, ¬ (StrictlyIn t p ∧ StrictlyIn u p)) := by
+/-- pairwise separated positively oriented triangles: at most one contains a given point strictly -/
+theorem count_le_one (ts : List Tri) (hpos : ∀ t ∈ ts, 0 < t.det) (hsep : ts.Pairwise Separated) (p : Pt) :
+    countIn ts p = 0 ∨ countIn ts p = 1 := count_le_one' ts hpos hsep p
+
+/-- **edge pairing ⇒ covering count (Delaunay case).**  For an accepted triangulation and every point `p` on
+none of the triangle-edge or hull-edge lines: the number of triangles containing `p` strictly equals the
+winding number of the hull boundary about `p`, and it is 0 or 1. -/
+theorem edge_pairing_cover_count (sites : List Pt) (tris : List Tri) (h : isTriangulationOf sites tris = true) (p : Pt)
+    (hpT : ∀ e ∈ triEdges (tris.map Tri.ccw), OffLine p e) (hpB : ∀ e ∈ loopEdges (hull sites), OffLine p e) :
+    countIn (tris.map Tri.ccw) p = sumInt ((loopEdges (hull sites)).map (wind p)) ∧
+    (countIn (tris.map Tri.ccw) p = 0 ∨ countIn (tris.map Tri.ccw) p = 1) := by
   have hs := isTriangulationOf_sound sites tris h
-  refine ⟨?_, hs.positively_oriented, ?_⟩
+  refine ⟨?_, count_le_one _ hs.positively_oriented hs.tiling.disjoint p⟩
+  apply chainEq_count sites _ _ p _ hs.positively_oriented hpT hpB
+  simp only [chainEq, List.isEmpty_iff]
+  exact hs.tiling.chain
+
+/-- the same for the constrained triangulation of a polygon (shell + holes) -/
+theorem cdt_cover_count (rings : List (List Pt)) (tris : List Tri) (h : isCDTOf rings tris = true) (p : Pt)
+    (hpT : ∀ e ∈ triEdges (tris.map Tri.ccw), OffLine p e) (hpB : ∀ e ∈ polyBoundary rings, OffLine p e) :
+    countIn (tris.map Tri.ccw) p = sumInt ((polyBoundary rings).map (wind p)) ∧
+    (countIn (tris.map Tri.ccw) p = 0 ∨ countIn (tris.map Tri.ccw) p = 1) := by
+  have hs := isCDTOf_sound rings tris h
+  refine ⟨?_, count_le_one _ hs.positively_oriented hs.tiling.disjoint p⟩
+  apply chainEq_count (rings.flatMap id) _ _ p _ hs.positively_oriented hpT hpB
+  simp only [chainEq, List.isEmpty_iff]
+  exact hs.tiling.chain
+
+/-- **no triangle sticks out of the hull** (second half of `C16_cover_full`, proved unconditionally): every point
+strictly inside a triangle of an accepted triangulation is on or to the left of every hull edge -/
+theorem triangles_inside_hull (sites : List Pt) (tris : List Tri) (h : isTriangulationOf sites tris = true)
+    (h3 : 3 ≤ (hull sites).length) (p : Pt) :
+    ∀ t ∈ tris.map Tri.ccw, StrictlyIn t p → ∀ e ∈ loopEdges (hull sites), 0 ≤ Kernel.det e.1 e.2 p := by
+  have hs := isTriangulationOf_sound sites tris h
+  intro t ht hin e he
+  obtain ⟨t0, ht0, rfl⟩ := List.mem_map.mp ht
+  have hpos : 0 < t0.ccw.det := hs.positively_oriented _ ht
+  have hc : ∀ q ∈ t0.ccw.corners, 0 ≤ Kernel.det e.1 e.2 q := fun q hq =>
+    hs.hull.contains h3 e he q (hs.corners_are_sites t0 ht0 q ((ccw_corners t0 q).mp hq))
+  have ha := hc t0.ccw.a (by simp [Tri.corners])
+  have hb := hc t0.ccw.b (by simp [Tri.corners])
+  have hcc := hc t0.ccw.c (by simp [Tri.corners])
+  -- p is a strict convex combination of the corners
+  have comb : Kernel.det e.1 e.2 p * t0.ccw.det =
+      Kernel.det t0.ccw.b t0.ccw.c p * Kernel.det e.1 e.2 t0.ccw.a + Kernel.det t0.ccw.c t0.ccw.a p * Kernel.det e.1 e.2 t0.ccw.b +
+      Kernel.det t0.ccw.a t0.ccw.b p * Kernel.det e.1 e.2 t0.ccw.c := by
+    simp only [Kernel.det, Tri.det]; ring
+  obtain ⟨w1, w2, w3⟩ := hin
+  have r1 : 0 ≤ Kernel.det t0.ccw.b t0.ccw.c p * Kernel.det e.1 e.2 t0.ccw.a := Int.mul_nonneg (by omega) ha
+  have r2 : 0 ≤ Kernel.det t0.ccw.c t0.ccw.a p * Kernel.det e.1 e.2 t0.ccw.b := Int.mul_nonneg (by omega) hb
+  have r3 : 0 ≤ Kernel.det t0.ccw.a t0.ccw.b p * Kernel.det e.1 e.2 t0.ccw.c := Int.mul_nonneg (by omega) hcc
+  by_contra hneg
+  have hlt : Kernel.det e.1 e.2 p < 0 := by omega
+  have : Kernel.det e.1 e.2 p * t0.ccw.det < 0 := Int.mul_neg_of_neg_of_pos hlt hpos
+  omega
+
+/-- **the certified hull boundary winds once around interior points, not at all around exterior ones.**  `p` in
+general position: on no line through an edge of the hull's fan triangulation (these include the hull edges). -/
+theorem hull_boundary_winding (sites : List Pt) (tris : List Tri) (h : isTriangulationOf sites tris = true)
+    (h3 : 3 ≤ (hull sites).length) (p : Pt) (hpF : ∀ e ∈ triEdges (fan (hull sites)), OffLine p e) :
+    ((∀ e ∈ loopEdges (hull sites), 0 < Kernel.det e.1 e.2 p) → sumInt ((loopEdges (hull sites)).map (wind p)) = 1) ∧
+    ((∃ e ∈ loopEdges (hull sites), Kernel.det e.1 e.2 p < 0) → sumInt ((loopEdges (hull sites)).map (wind p)) = 0) :=
+  hull_winding sites (hull sites) (isTriangulationOf_sound sites tris h).hull h3 p hpF
+
+/-- **edge pairing + area ⇒ exact cover of the hull (points in general position).**  For an accepted
+triangulation with a non-degenerate hull: the doubled areas add up to the doubled hull area, and for every point
+`p` on none of the (finitely many) lines through a triangle edge, a hull edge or a fan diagonal of the hull:
+if `p` is strictly inside the hull it is strictly inside exactly one triangle; if it is strictly outside the hull
+it is in no triangle.  (Not proved: the passage to the points ON those lines — `C16_cover_full` — which is a
+closure argument.) -/
+theorem edge_pairing_area_cover (sites : List Pt) (tris : List Tri)
+    (h : isTriangulationOf sites tris = true) (h3 : 3 ≤ (hull sites).length) :
+    sumInt ((tris.map Tri.ccw).map Tri.det) = sumInt ((loopEdges (hull sites)).map cross) ∧
+    ∀ p : Pt, (∀ e ∈ triEdges (tris.map Tri.ccw), OffLine p e) → (∀ e ∈ loopEdges (hull sites), OffLine p e) →
+      (∀ e ∈ triEdges (fan (hull sites)), OffLine p e) →
+      ((∀ e ∈ loopEdges (hull sites), 0 < Kernel.det e.1 e.2 p) → countIn (tris.map Tri.ccw) p = 1) ∧
+      ((∃ e ∈ loopEdges (hull sites), Kernel.det e.1 e.2 p < 0) → countIn (tris.map Tri.ccw) p = 0) := by
+  have hs := isTriangulationOf_sound sites tris h
+  refine ⟨?_, fun p hpT hpB hpF => ?_⟩
   · apply edge_pairing_area sites
     simp only [chainEq, List.isEmpty_iff]
     exact hs.tiling.chain
-  · have hd := hs.tiling.disjoint
-    have hp := hs.positively_oriented
-    generalize tris.map Tri.ccw = ts at hd hp
-    induction hd with
-    | nil => exact List.Pairwise.nil
-    | cons hhead _ ih =>
-      refine List.Pairwise.cons (fun u hu p => ?_) (ih (fun t ht => hp t (List.mem_cons_of_mem _ ht)))
-      exact separated_no_common_interior _ u (hp _ (List.mem_cons_self)) (hp u (List.mem_cons_of_mem _ hu)) (hhead u hu) p
+  · have hc := (edge_pairing_cover_count sites tris h p hpT hpB).1
+    obtain ⟨h1, h0⟩ := hull_boundary_winding sites tris h h3 p hpF
+    exact ⟨fun hin => by rw [hc]; exact h1 hin, fun hout => by rw [hc]; exact h0 hout⟩
+
+/-- the geometric step NOT proved for polygons with holes: the winding number of the oriented boundary (shell
+counter-clockwise, holes clockwise) of a valid polygon about a point in general position is 1 for interior points
+and 0 for exterior points (`Kernel.locateInPolygon` is the even–odd specification of interior/exterior) -/
+def PolygonWindingIsIndicator (rings : List (List Pt)) : Prop :=
+  ∀ p : Pt, (∀ e ∈ polyBoundary rings, OffLine p e) →
+    (locateInPolygon p rings = Loc.interior → sumInt ((polyBoundary rings).map (wind p)) = 1) ∧
+    (locateInPolygon p rings = Loc.exterior → sumInt ((polyBoundary rings).map (wind p)) = 0)
+
+/-- **PARTIAL** (constrained case): under `PolygonWindingIsIndicator`, an accepted constrained triangulation covers
+exactly the polygon (points in general position): interior points are strictly inside exactly one triangle,
+exterior points in none; and the areas add up. -/
+theorem cdt_cover_partial (rings : List (List Pt)) (tris : List Tri) (h : isCDTOf rings tris = true)
+    (hw : PolygonWindingIsIndicator rings) :
+    sumInt ((tris.map Tri.ccw).map Tri.det) = polyArea2 rings ∧
+    ∀ p : Pt, (∀ e ∈ triEdges (tris.map Tri.ccw), OffLine p e) → (∀ e ∈ polyBoundary rings, OffLine p e) →
+      (locateInPolygon p rings = Loc.interior → countIn (tris.map Tri.ccw) p = 1) ∧
+      (locateInPolygon p rings = Loc.exterior → countIn (tris.map Tri.ccw) p = 0) := by
+  have hs := isCDTOf_sound rings tris h
+  refine ⟨hs.tiling.area, fun p hpT hpB => ?_⟩
+  have hc := (cdt_cover_count rings tris h p hpT hpB).1
+  obtain ⟨h1, h0⟩ := hw p hpB
+  exact ⟨fun hin => by rw [hc]; exact h1 hin, fun hout => by rw [hc]; exact h0 hout⟩
 
 /-! ### non-vacuity -/
 
@@ -212,6 +278,19 @@ example : (isCDTOf [[⟨0,0⟩,⟨2,0⟩,⟨2,1⟩,⟨1,1⟩,⟨1,2⟩,⟨0,2⟩
     [⟨⟨0,0⟩,⟨2,0⟩,⟨2,1⟩⟩, ⟨⟨0,0⟩,⟨2,1⟩,⟨1,1⟩⟩, ⟨⟨0,0⟩,⟨1,1⟩,⟨0,2⟩⟩, ⟨⟨1,1⟩,⟨1,2⟩,⟨0,2⟩⟩]) = true := by decide
 example : (isCDTOf [[⟨0,0⟩,⟨2,0⟩,⟨2,2⟩,⟨0,2⟩,⟨0,0⟩]]
     [⟨⟨0,0⟩,⟨2,0⟩,⟨2,1⟩⟩, ⟨⟨0,0⟩,⟨2,1⟩,⟨1,1⟩⟩, ⟨⟨0,0⟩,⟨1,1⟩,⟨0,2⟩⟩, ⟨⟨1,1⟩,⟨1,2⟩,⟨0,2⟩⟩]) = false := by decide
+
+/-- the covering count is not vacuous: the point (3,2) (on no edge line) is strictly inside exactly one of the four
+triangles and the hull boundary winds once around it; (5,2) is outside: count 0, winding number 0 -/
+example : countIn ([⟨⟨0,0⟩,⟨4,0⟩,⟨2,1⟩⟩, ⟨⟨4,0⟩,⟨4,4⟩,⟨2,1⟩⟩, ⟨⟨4,4⟩,⟨0,4⟩,⟨2,1⟩⟩, ⟨⟨0,0⟩,⟨2,1⟩,⟨0,4⟩⟩].map Tri.ccw) ⟨3,2⟩ = 1 ∧
+    sumInt ((loopEdges (hull [⟨0,0⟩, ⟨4,0⟩, ⟨4,4⟩, ⟨0,4⟩, ⟨2,1⟩])).map (wind ⟨3,2⟩)) = 1 ∧
+    countIn ([⟨⟨0,0⟩,⟨4,0⟩,⟨2,1⟩⟩, ⟨⟨4,0⟩,⟨4,4⟩,⟨2,1⟩⟩, ⟨⟨4,4⟩,⟨0,4⟩,⟨2,1⟩⟩, ⟨⟨0,0⟩,⟨2,1⟩,⟨0,4⟩⟩].map Tri.ccw) ⟨5,2⟩ = 0 ∧
+    sumInt ((loopEdges (hull [⟨0,0⟩, ⟨4,0⟩, ⟨4,4⟩, ⟨0,4⟩, ⟨2,1⟩])).map (wind ⟨5,2⟩)) = 0 := by decide
+
+/-- … and the general-position hypotheses of `edge_pairing_cover_count` are satisfiable: (3,2) and (5,2) lie on none
+of the triangle-edge or hull-edge lines of that example -/
+example : (∀ e ∈ triEdges ([⟨⟨0,0⟩,⟨4,0⟩,⟨2,1⟩⟩, ⟨⟨4,0⟩,⟨4,4⟩,⟨2,1⟩⟩, ⟨⟨4,4⟩,⟨0,4⟩,⟨2,1⟩⟩, ⟨⟨0,0⟩,⟨2,1⟩,⟨0,4⟩⟩].map Tri.ccw),
+      Kernel.det e.1 e.2 ⟨3,2⟩ ≠ 0 ∧ Kernel.det e.1 e.2 ⟨5,2⟩ ≠ 0) ∧
+    (∀ e ∈ loopEdges (hull [⟨0,0⟩, ⟨4,0⟩, ⟨4,4⟩, ⟨0,4⟩, ⟨2,1⟩]), Kernel.det e.1 e.2 ⟨3,2⟩ ≠ 0 ∧ Kernel.det e.1 e.2 ⟨5,2⟩ ≠ 0) := by decide
 
 /-- `inCircle_sign` is not vacuous: (1,1) is strictly inside the circle through (0,0),(4,0),(0,4) -/
 example : 0 < Kernel.det ⟨0,0⟩ ⟨4,0⟩ ⟨0,4⟩ ∧ 0 < inCircleDet ⟨0,0⟩ ⟨4,0⟩ ⟨0,4⟩ ⟨1,1⟩ ∧
